@@ -1,5 +1,12 @@
-(* C09 -- statements grow with the development; see DESIGN.md section 7. *)
-From BL Require Import Base.Prelude Mach.Val Mach.Compile.
+(* C09 -- READ consumes DATA in source order; RESTORE and RUN reposition it.
+   Proved (Proofs/DataRead.v): one READ takes the constant under the pointer and advances it by one, touching nothing
+   else; k READs deliver the next k constants of the segment in order; reading past the end is OUT OF DATA and changes
+   nothing; RESTORE sets the pointer to the resolved data address; CLEAR rewinds to 0; a line's symbol records the number
+   of constants before the line; appending a fragment appends its constants.
+   NOT proved: that the segment of a whole compiled program is the concatenation of its DATA statements in source order
+   (needs an induction over all statement kinds of the code generator).  Decided by the C09 monitor against Spec/Sem.v,
+   whose DATA list is defined directly on the AST. *)
+From BL Require Import Base.Prelude Mach.Val Mach.Compile Mach.Runtime Proofs.DataRead.
 Local Open Scope N_scope.
 
 (* appending a fragment keeps the data already in the segment and adds the fragment's constants behind it *)
@@ -12,3 +19,35 @@ Proof.
   injection H as <-. reflexivity.
 Qed.
 Print Assumptions C09_append_data.
+
+Theorem C09_read_one : forall r v, nthN (data_of r) (data_pos r) = Some v -> r_slen r + 1 <= MAX_POOL ->
+  exists r', do_read r = (r', Ok tt)
+    /\ r_stack r' = v :: r_stack r /\ data_pos r' = data_pos r + 1 /\ data_of r' = data_of r
+    /\ r_vars r' = r_vars r /\ r_pc r' = r_pc r /\ l_ops (pg_link (r_prog r')) = l_ops (pg_link (r_prog r)).
+Proof. exact read_one. Qed.
+Print Assumptions C09_read_one.
+
+Theorem C09_read_past_end : forall r, lenN (data_of r) <= data_pos r -> do_read r = (r, err E_OutOfData).
+Proof. exact read_past_end. Qed.
+Print Assumptions C09_read_past_end.
+
+Theorem C09_read_sequence : forall k r vs, firstn k (skipnN (data_pos r) (data_of r)) = vs -> length vs = k ->
+  r_slen r + N.of_nat k <= MAX_POOL ->
+  exists r', reads k r = (r', Ok tt) /\ r_stack r' = rev vs ++ r_stack r /\ data_pos r' = data_pos r + N.of_nat k
+             /\ data_of r' = data_of r /\ r_vars r' = r_vars r.
+Proof. exact read_sequence. Qed.
+Print Assumptions C09_read_sequence.
+
+Theorem C09_restore_sets_pointer : forall O h a r, data_pos (fst (exec_op O h (OpRestore a) r)) = a
+  /\ data_of (fst (exec_op O h (OpRestore a) r)) = data_of r.
+Proof. exact restore_sets_pointer. Qed.
+Print Assumptions C09_restore_sets_pointer.
+
+Theorem C09_clear_rewinds : forall O r, data_pos (fst (do_clear O r)) = 0 /\ data_of (fst (do_clear O r)) = data_of r.
+Proof. exact clear_rewinds. Qed.
+Print Assumptions C09_clear_rewinds.
+
+Theorem C09_line_symbol_data_address : forall n l l', l_push_symbol n l = (l', Ok tt) ->
+  exists a, zassoc_get n (l_syms l') = Some (a, lenN (l_data l)).
+Proof. exact line_symbol_data_address. Qed.
+Print Assumptions C09_line_symbol_data_address.
